@@ -273,6 +273,37 @@ func VerifRTCases(pairs bool) []VerifRTCase {
 			run("one-hot:"+f, []string{f})
 		}
 		run("all-set", names)
+		// a code point the library has a table entry for, with every other field still the caller's:
+		// the view is the caller's value, not a reference to the table
+		if f, ok := st.FieldByName("Id"); ok && f.Type.Kind() == reflect.Uint16 {
+			for _, id := range []uint16{TLS_AES_128_GCM_SHA256, TLS_AES_256_GCM_SHA384, TLS_CHACHA20_POLY1305_SHA256, TLS_ECDHE_RSA_WITH_AES_128_GCM_SHA256, TLS_RSA_WITH_AES_128_CBC_SHA} {
+				c := VerifRTCase{Type: t.name, Pattern: fmt.Sprintf("all-set+registered-id:%04x", id)}
+				in := t.mk()
+				for _, g := range names {
+					fillSentinel(in.Elem().FieldByName(g), 0)
+				}
+				settable(in.Elem().FieldByName("Id")).SetUint(uint64(id))
+				func() {
+					defer func() {
+						if e := recover(); e != nil {
+							c.Fails = append(c.Fails, fmt.Sprintf("panic: %v", e))
+						}
+					}()
+					o := t.rt(in)
+					if o.Kind() == reflect.Ptr && o.IsNil() {
+						c.Fails = append(c.Fails, "round trip returned nil")
+						return
+					}
+					for _, g := range names {
+						a, b := in.Elem().FieldByName(g), o.Elem().FieldByName(g)
+						if !eqValue(a, b) {
+							c.Fails = append(c.Fails, fmt.Sprintf("field %s: %v became %v", g, fmtVal(a), fmtVal(b)))
+						}
+					}
+				}()
+				out = append(out, c)
+			}
+		}
 		if pairs || len(names) <= 6 { // small views (e.g. the four key fields of KeySharePrivateKeys): all pairs always
 			for i := range names {
 				for j := i + 1; j < len(names); j++ {
